@@ -139,7 +139,9 @@ def make_world(seed):
             pos = end + rng.randint(2500, 3500)
         # unannotated loci whose splice sites are a TIE (one intron canonical on '+', one on '-', optionally a third one canonical on
         # neither strand): only the tails of the reads decide the strand
-        for k, (ts, mid) in enumerate((("+", False), ("-", False), ("+", True), ("-", True))):
+        for k, (ts, mid) in enumerate((("+", False), ("-", False), ("+", True), ("-", True), ("+", "notail"), ("-", "notail"))):
+            notail = mid == "notail"
+            mid = False if notail else mid
             ex = [(pos, pos + 300), (pos + 700, pos + 950), (pos + 1400, pos + 1700)]
             classes = [("+", "canonical"), ("-", "canonical")]
             if mid:
@@ -148,7 +150,7 @@ def make_world(seed):
             if k % 2:
                 classes = classes[::-1]
             g = Gene("TIE%d_%d" % (ci + 1, k + 1), chrom, ts)
-            t = Transcript(g.id + ".h1", g.id, chrom, ts, ex, False, "splice-site-tie")
+            t = Transcript(g.id + ".h1", g.id, chrom, ts, ex, False, "splice-site-tie-no-tail" if notail else "splice-site-tie")
             g.hidden.append(t)
             for intr, (st_, cl_) in zip(t.introns, classes):
                 w.plant_sites(chrom, intr, st_, cl_)
@@ -216,8 +218,8 @@ def make_world(seed):
                 w.plant_sites(t.chrom, (ex[-1][1] + 1, right_exon[0] - 1), t.strand, "canonical")
                 w.make_read(t.chrom, ex + [right_exon], truth={"src": t.id, "class": "extra-right-exon-outside-gene"})
         for t in g.hidden:
-            for _ in range(24 if t.kind == "contested-intron-novel" else 12 if t.kind in ("splice-site-tie", "mixed-introns-novel") else 7):
-                w.read_from_transcript(t, mode="full", jitter=0, polya=True, flag=rng.choice((0, 16)))
+            for _ in range(24 if t.kind == "contested-intron-novel" else 12 if t.kind in ("splice-site-tie", "splice-site-tie-no-tail", "mixed-introns-novel") else 7):
+                w.read_from_transcript(t, mode="full", jitter=0, polya=t.kind != "splice-site-tie-no-tail", flag=rng.choice((0, 16)))
     from vlib import world2
     world2.add_zoo(w)
     return w, truth_shared
@@ -325,6 +327,13 @@ def run(chk, scratch):
                     chk.violation("tsv-flag:mono-exonic-not-Unspliced", "%s: read %s Canonical=%s" % (desc, a.read_id, val), wit)
                 continue
             if a.strand not in ("+", "-"):
+                # undefined strand: canonical means canonical with respect to ONE of the two strands (all introns on the same one)
+                exp_u = str(canonical(w, a.chr, introns, "+") or canonical(w, a.chr, introns, "-"))
+                chk.count("undefined_strand_flags_judged")
+                if val != exp_u:
+                    chk.violation("tsv-flag-differs-from-reference:undefined-strand",
+                                  "%s: read %s strand '.' introns %s: Canonical=%s, no single strand makes all introns canonical: expected %s (sites %s)" %
+                                  (desc, a.read_id, introns[:3], val, exp_u, [sites(w, a.chr, i) for i in introns[:3]]), wit)
                 continue
             exp = str(canonical(w, a.chr, introns, a.strand))
             if val != exp:
@@ -353,6 +362,12 @@ def run(chk, scratch):
                     if not introns:
                         if val != "Unspliced":
                             chk.violation("gtf-flag:mono-exonic-not-Unspliced", "%s: %s Canonical %s" % (desc, tid, val), wit)
+                    elif t["strand"] not in ("+", "-"):
+                        exp_u = str(canonical(w, t["chr"], introns, "+") or canonical(w, t["chr"], introns, "-"))
+                        chk.count("undefined_strand_flags_judged")
+                        if val != exp_u:
+                            chk.violation("gtf-flag-differs-from-reference:undefined-strand",
+                                          "%s: %s (%s) strand '.' Canonical \"%s\", expected %s (canonical on one of the strands)" % (desc, tid, fname, val, exp_u), wit)
                     elif t["strand"] in ("+", "-"):
                         exp = str(canonical(w, t["chr"], introns, t["strand"]))
                         if val != exp:
@@ -400,7 +415,7 @@ def run(chk, scratch):
         shutil.rmtree(out, ignore_errors=True)
     chk.extra.update({"queries_logged": queries, "introns_queried_on_both_strands_in_one_locus": both_strands})
     chk.assumptions = ["canonical pairs from the documentation: GT-AG, GC-AG, AT-AC on '+' and their reverse complements on '-'",
-                       "records with strand '.' have no reported strand and are not judged",
+                       "records with strand '.': Canonical is judged as 'canonical with respect to one of the two strands' (the tree's rule since fix e001198)",
                        "a novel model's strand is a violation only when it contradicts every available kind of evidence"]
     chk.inconclusive_if(queries == 0, "canonical monitor never fired")
     chk.inconclusive_if(chk.extra.get("soft_masked_runs", 0) == 0, "no run on a soft-masked reference")
